@@ -119,17 +119,20 @@ VoxelFormats == DOMAIN VoxelCapTable
 \* kinds   geometry kinds the format can hold next to each other
 \* orient  the vertex order inside each triangle is kept for mirrored instances (flattening
 \*         exporters re-wind mirrored instances so that normals keep pointing outwards)
-SC(k, o, p) == [place |-> T, kinds |-> k, orient |-> o, prec |-> p]
+\* tolerates: kinds the exporter accepts next to the ones it carries: they do not come back, but the
+\*         geometry that IS carried must come back undisturbed (a point cloud or a face-less mesh written
+\*         between two meshes must not shift the face indices of the second)
+SC(k, t, o, p) == [place |-> T, kinds |-> k, tolerates |-> t, orient |-> o, prec |-> p]
 SceneCapTable ==
-       ("glb"              :> SC({"mesh", "cloud", "path"}, T, "f32"))
-    @@ ("gltf"             :> SC({"mesh", "cloud", "path"}, T, "f32"))
-    @@ ("gltf_merge_embed" :> SC({"mesh", "cloud", "path"}, T, "f32"))
-    @@ ("3mf"              :> SC({"mesh"}, T, "repr"))
-    @@ ("obj"              :> SC({"mesh"}, F, "t8"))
-    @@ ("ply"              :> SC({"mesh"}, F, "f32"))
-    @@ ("stl"              :> SC({"mesh"}, F, "f32"))
-    @@ ("dict"             :> SC({"mesh"}, T, "f64"))
-    @@ ("dict64"           :> SC({"mesh"}, T, "f64"))
+       ("glb"              :> SC({"mesh", "cloud", "path"}, {}, T, "f32"))
+    @@ ("gltf"             :> SC({"mesh", "cloud", "path"}, {}, T, "f32"))
+    @@ ("gltf_merge_embed" :> SC({"mesh", "cloud", "path"}, {}, T, "f32"))
+    @@ ("3mf"              :> SC({"mesh"}, {}, T, "repr"))
+    @@ ("obj"              :> SC({"mesh"}, {"cloud"}, F, "t8"))
+    @@ ("ply"              :> SC({"mesh"}, {"cloud"}, F, "f32"))
+    @@ ("stl"              :> SC({"mesh"}, {"cloud"}, F, "f32"))
+    @@ ("dict"             :> SC({"mesh"}, {}, T, "f64"))
+    @@ ("dict64"           :> SC({"mesh"}, {}, T, "f64"))
 SceneFormats == DOMAIN SceneCapTable
 
 Tables == [mesh  |-> MeshCapTable,
@@ -137,5 +140,5 @@ Tables == [mesh  |-> MeshCapTable,
            cloud |-> CloudCapTable,
            path  |-> [f \in PathFormats |-> [dims |-> SetToSeq(PathCapTable[f].dims), ents |-> PathCapTable[f].ents, prec |-> PathCapTable[f].prec]],
            voxel |-> VoxelCapTable,
-           scene |-> [f \in SceneFormats |-> [kinds |-> SetToSeq(SceneCapTable[f].kinds), orient |-> SceneCapTable[f].orient, prec |-> SceneCapTable[f].prec]]]
+           scene |-> [f \in SceneFormats |-> [kinds |-> SetToSeq(SceneCapTable[f].kinds), tolerates |-> SetToSeq(SceneCapTable[f].tolerates), orient |-> SceneCapTable[f].orient, prec |-> SceneCapTable[f].prec]]]
 =============================================================================
